@@ -199,6 +199,9 @@ def analyse(ctx, want_prefix: str):
         paths = run_body(interp, st, Lin(consts.WORLD), -1)
         for p in paths:
             good = len(p.appended) == 1 and p.appended[0] == Lin(consts.WORLD) and isinstance(p.advance, Lin) and p.advance == Lin(1) and p.signal in (None, ("continue",))
+            if not good and len(p.appended) == 0 and isinstance(p.advance, Lin) and p.advance == Lin(1) and p.signal in (None, ("continue",)) and \
+                    any(_sibling_equation(c, t) == (-1, Lin(consts.WORLD)) for c, t in p.conds):
+                good = True     # a repeat of the entry handled just before
             ob("C08.5", f"{Q}: a world-cell entry is copied through", core.DISCHARGED if good else core.VIOLATED, core.loc(COMPACT, st.inner),
                f"appended {p.appended}, index advance {p.advance}")
         carried = carried_variables(st)
@@ -309,6 +312,7 @@ def check_paths(ob, st: Structure, sib: Siblings, paths: List[BodyPath], r: int)
     tag = f"{Q} scan at a resolution-{r} cell"
     merges = 0
     copy_seen = False
+    current = sib.cell
     for p in paths:
         pc = " and ".join(f"{'' if t else 'not '}{c}" for c, t in p.conds) or "unconditional"
         if p.signal not in (None, ("continue",)):
@@ -321,6 +325,12 @@ def check_paths(ob, st: Structure, sib: Siblings, paths: List[BodyPath], r: int)
         for e in p.effects:
             if e[0] == "mutates-input":
                 ob("C08.6", f"{tag}: `{e[1]}` modifies a list in place", core.VIOLATED, where, f"path [{pc}]")
+        if len(p.appended) == 0 and isinstance(p.advance, Lin) and p.advance.is_const() and p.advance.const == 1 and \
+                any((_sibling_equation(c, t) or (None, None))[0] == -1 and (_sibling_equation(c, t)[1] - current).is_const()
+                    and (_sibling_equation(c, t)[1] - current).const == 0 for c, t in p.conds):
+            ob("C08.1", f"{tag}: a repeat of the previous entry is skipped", core.DISCHARGED, where,
+               f"path [{pc}]: the entry equals the one handled just before, whose area is already emitted (as itself or inside a parent)")
+            continue
         if len(p.appended) != 1 or not isinstance(p.appended[0], Lin) or not isinstance(p.advance, Lin) or not p.advance.is_const():
             if len(p.appended) == 0 and isinstance(p.advance, Lin) and p.advance.is_const() and p.advance.const >= 1:
                 ob("C08.1", f"{tag}: {p.advance.const} entries consumed, nothing emitted", core.VIOLATED, where, f"path [{pc}]: cells are lost")
@@ -341,6 +351,11 @@ def check_paths(ob, st: Structure, sib: Siblings, paths: List[BodyPath], r: int)
             continue
         # ---- merge path --------------------------------------------------------------------------------
         merges += 1
+        opaque = [f"{'' if t else 'not '}{c}" for c, t in p.conds if any(type(at).__name__ == "Opaque" for at in (c.left - c.right).atoms())]
+        if opaque:
+            ob("C08.2", f"{tag}: merge guarded by a condition the analysis does not model", core.UNDECIDED, where,
+               f"{opaque[:2]}: whether this path merges exactly a complete sibling group is not decided")
+            continue
         stt, text = same_or_refuted(x, sib.parent, 0)
         ob("C08.1", f"{tag}: merge path emits the parent of the group", stt, where, text)
         first = [cond_is_position_zero(c, t, sib.A) for c, t in p.conds]
